@@ -38,6 +38,9 @@ structure Profile where
   overflowChecks : Bool := true
   /-- `usize::BITS` -/
   wordBits : Nat := 64
+  /-- the proposed repair of F3 (checked accumulation in `Parser::integer`): an overflowing width is
+  an `Err`, surfaced as `{ERROR: width too large}`. `false` = the code as it is. -/
+  widthCheck : Bool := false
   deriving Repr
 
 def Profile.debug64 : Profile := {}
@@ -74,6 +77,8 @@ def eUnexpectedOpenParen : List Char := cs!"unexpected '('"
 def eUnexpectedCloseParen : List Char := cs!"unexpected ')'"
 def eUnexpectedBackslash : List Char := cs!"unexpected '\\'"
 def eUnclosedParen : List Char := cs!"unclosed '('"
+/-- only with `Profile.widthCheck` (proposed repair of F3) -/
+def eWidthTooLarge : List Char := cs!"width too large"
 
 /-- the five characters `Parser::text` stops at -/
 def isSpecial (c : Char) : Bool := c = '{' || c = '}' || c = '(' || c = ')' || c = '\\'
@@ -90,6 +95,7 @@ def integerLoop (P : Profile) : List Char → Nat → Bool → PR (Option Nat)
     if Str.isAsciiDigit c then
       let v := cur * 10 + Str.digitVal c
       if v < 2 ^ P.wordBits then integerLoop P r v true
+      else if P.widthCheck then .fail eWidthTooLarge (r.dropWhile Str.isAsciiDigit)
       else if P.overflowChecks then .panic "attempt to multiply with overflow"
       else integerLoop P r (v % 2 ^ P.wordBits) true
     else .ok (if found then some cur else none) (c :: r)
@@ -152,14 +158,14 @@ def doubled (c : Char) (r : List Char) : Option (List Char) :=
 
 /-- `Parser::argument` + `Parser::formatter` and the closing brace, on the input after `'{'`;
 `argsF` is `Parser::args` (the recursive call). A failed `args()` makes `argument` return the
-error piece without parsing parameters. -/
+error piece without parsing parameters; `parameters` fails only with `Profile.widthCheck`. -/
 def argumentWith (cc : CharClass) (P : Profile) (argsF : List Char → PR (List (List Piece)))
     (r : List Char) : PR (Option Piece) :=
   match argsF (name cc r).2 with
   | .ok args r2 =>
     match parameters P r2 with
     | .ok p r3 => closeBrace (.arg (name cc r).1 args p) r3
-    | .fail e r3 => .fail e r3
+    | .fail e r3 => closeBrace (.error e) r3
     | .panic w => .panic w
     | .fuel => .fuel
   | .fail e r2 => closeBrace (.error e) r2
